@@ -510,6 +510,18 @@ func (fr *Frame) store(st *State, p *Val, v *Val, pos token.Pos) {
 		return
 	}
 	fr.guardCheck(st, loc, true, pos)
+	if e.ownerOn() {
+		if loc.Kind == locElem && loc.Comp == "A_byte" {
+			fr.ownerWriteCheck(st, loc.Base, pos, "element store")
+		}
+		if loc.GoT != nil && isByteSlice(loc.GoT) && (loc.Kind == locField || loc.Kind == locElem) {
+			desc := loc.Comp
+			if loc.StructKey != "" {
+				desc = loc.StructKey + "." + loc.Field
+			}
+			e.retained = append(e.retained, retainedStore{loc: loc, desc: desc, pos: pos, pc: st.pc})
+		}
+	}
 	e.locWrite(st, loc, v.T)
 }
 
